@@ -23,8 +23,9 @@ fn body_bytes(n: usize, salt: u8) -> Vec<u8> {
 }
 
 /// a frame cut by the end of the stream: returns (bytes kept, what was cut, DATA payload bytes kept)
-fn cut_frame() -> (Vec<u8>, &'static str, Vec<u8>) {
-    match draw(6) {
+fn cut_frame(only_unknown: bool) -> (Vec<u8>, &'static str, Vec<u8>) {
+    // after the trailers only frames of unknown type are legal, so only those are cut there
+    match if only_unknown { *pick(&[2u32, 6, 7]) } else { draw(6) } {
         0 => {
             // DATA cut inside its payload
             let n = 2 + draw_usize(40);
@@ -65,6 +66,13 @@ fn cut_frame() -> (Vec<u8>, &'static str, Vec<u8>) {
             let keep = 1 + draw_usize(t.len() - 1);
             (t[..keep.min(t.len() - 1)].to_vec(), "type", vec![])
         }
+        6 => {
+            // a multi-byte grease type cut in the middle
+            let t = varint::encode_form(0x21 + 0x1f * 64, *pick(&[1usize, 2, 3])).unwrap();
+            let keep = 1 + draw_usize(t.len() - 1);
+            (t[..keep.min(t.len() - 1)].to_vec(), "unknown.type", vec![])
+        }
+        7 => (varint_any_form(0x21 + 0x1f * draw(100) as u64), "unknown.length_missing", vec![]),
         _ => {
             // only the type of a frame, no length at all
             (varint_any_form(*pick(&[frames::DATA, frames::HEADERS, 0x21])), "length_missing", vec![])
@@ -90,7 +98,13 @@ pub fn run_message_stream() -> RunOut {
             bytes.extend(frame_forms(0x21 + 0x1f * 3, &[1, 2, 3]));
         }
     }
-    let (tail, what, partial) = cut_frame();
+    // one run in three: the message is complete including its trailers and the cut frame comes after them
+    let after_trailers = draw(3) == 2;
+    if after_trailers {
+        bytes.extend(headers_frame(&trailer_fields()));
+        obs::count("probe.api_cut_frame_after_trailers");
+    }
+    let (tail, what, partial) = cut_frame(after_trailers);
     bytes.extend_from_slice(&tail);
     let mut cfg = NetCfg::drawn();
     cfg.drop_send = 0;
@@ -129,7 +143,7 @@ pub fn run_message_stream() -> RunOut {
     obs::note(|| format!("api mode: role_server={role_server} cut {what}; stream [{}] + FIN; observed {:?}", hexs(&bytes), o));
     let closes = net.lock().unwrap().closes_by(h3side);
     drop(ex);
-    let mk = |rule: &str, d: String| RunOut::fail(Violation::new(rule, format!("{d}; {} stream [{}] then FIN (the last frame is cut: {what}); observed {:?}; close codes {:?}", if role_server { "request" } else { "response" }, hexs(&bytes), o, closes.iter().map(|c| code_name(*c)).collect::<Vec<_>>())).fact("role", if role_server { "server" } else { "client" }).fact("cause", format!("api.cut.{what}")));
+    let mk = |rule: &str, d: String| RunOut::fail(Violation::new(rule, format!("{d}; {} stream [{}] then FIN (the last frame is cut: {what}); observed {:?}; close codes {:?}", if role_server { "request" } else { "response" }, hexs(&bytes), o, closes.iter().map(|c| code_name(*c)).collect::<Vec<_>>())).fact("role", if role_server { "server" } else { "client" }).fact("cause", format!("api.cut.{what}")).fact("position", if after_trailers { "after_trailers" } else { "in_message" }));
     let fe = SOut::Conn(COut::Local(FRAME_ERROR));
     if o.resolve != Some(Ok(())) {
         return mk("C02.api_valid_prefix_refused", "the complete HEADERS frame ahead of the cut frame was not delivered".into());
